@@ -59,7 +59,7 @@ prop('C01', title='Responses reach exactly the call that asked',
      verus=['client'], native=['client_routing_bounded'], technique=TECH_V + '; plus a bounded replay search through the public API as a source of concrete failing inputs (never counted as proved)',
      assumptions=COMMON_V + ['A-oneshot', 'A-mpsc', 'A-ids', 'A-pair', 'A-delayqueue', 'A-sink'],
      level_text='Deductive proof over all table states, ids and responses: complete_request/complete/pump_read deliver a response body only to the oneshot channel stored under the response\'s own id, remove exactly that entry, and leave view, timers and effect log untouched for an unknown id; the write pump only ever delivers errors; insert stores exactly the given sender under the id written to the wire. Every history is a sequence of these contracted calls (single-owner dispatch), so the per-call clauses + dispatch invariant give the property for all interleavings.',
-     level_note='The pairing of a call with its oneshot receiver (Channel::call) and tokio\'s oneshot delivery are assumed (A-pair, A-oneshot).',
+     level_note='Channel::call is under contract too: the sender it enqueues under the allocated id is the sender of the very receiver it then awaits (A-pair reduced to the model of oneshot::channel()). tokio\'s oneshot delivery is assumed (A-oneshot).',
      not_covered='that tokio delivers the value sent on a oneshot to the paired receiver')
 prop('C02', SERVER_TOO, title='Every call terminates; no wakeup is lost',
      verus=['client'], technique=TECH_V + ' (safety proxy: Pending => wake source armed)',
@@ -71,7 +71,7 @@ prop('C03', title='Abandoned calls are cancelled on the wire, exactly when neede
      verus=['client'], technique=TECH_V,
      assumptions=COMMON_V + ['A-oneshot', 'A-mpsc', 'A-ids', 'A-sink', 'A-delayqueue'],
      level_text='Proof that a request is yielded for writing only if its receiver was not seen closed; that a Cancel is written only for an id that is in flight (hence after its Request: dispatch invariant has_req) and removes it from the table (hence at most once); that a request whose write failed is removed (no later cancel).',
-     level_note='ResponseGuard::drop ordering (close before cancel) is in unit client_guard when registered; until then it is an assumption.',
+     level_note='Also proved: ResponseGuard::drop closes the receiver before queueing the cancellation and queues one iff armed; ResponseGuard::response disarms the guard once the receiver produced; Channel::call creates the armed guard before enqueueing the request.',
      not_covered='data races inside tokio close/send')
 prop('C05', title='Client enforces request deadlines, never early',
      verus=['client'], kani=['k3_time_until_is_saturating_difference', 'k3_max_timer_delay_value'], technique=TECH_V + '; ' + TECH_K,
@@ -89,8 +89,8 @@ prop('C09', SERVER_TOO, title='Transport failures are contained and reported',
      verus=['client'], technique=TECH_V,
      assumptions=COMMON_V + ['A-sink', 'A-oneshot', 'A-mpsc', 'A-delayqueue'],
      level_text='Proof that each transport wrapper tags a failure with its activity and that the tag survives `?` up to run(); that a failed request write removes and fails only that call and is not fatal; that start_send is never reached after a reported failure (its precondition); panic freedom of every extracted function (expect/unwrap/DelayQueue preconditions discharged).',
-     level_note='complete_all_requests + the terminal drain loop, Future::poll\'s dyn-Any downcast and the server side are not yet under contract.',
-     not_covered='shut_down_with_terminal_error (iterator adaptor out of reach: assumed), server channel error paths (unit server)')
+     level_note='shut_down_with_terminal_error is under contract (every queued caller with an open receiver is delivered the channel error; only channel errors are delivered; the transport is not touched again) with complete_all_requests cut to an ASSUMED contract (R11: impl Iterator over a draining map). Server: BaseChannel/Requests error tagging and containment are proved in unit server.',
+     not_covered='RequestDispatch::poll (dyn-Any downcast of the stored terminal error), complete_all_requests itself, Drop for server::InFlightRequests (aborts on channel drop)')
 prop('C10', SERVER_TOO, title='Shutdown is orderly: queued work is drained first',
      verus=['client'], technique=TECH_V,
      assumptions=COMMON_V + ['A-sink', 'A-mpsc', 'A-oneshot', 'A-delayqueue'],
@@ -137,7 +137,7 @@ prop('C04', title='Servers stop cancelled work and cancellation cascades',
      assumptions=COMMON_V + ['A-abortable', 'A-delayqueue', 'A-sink', 'A-mpsc'],
      level_text='Proof that a Cancel message aborts exactly the handle stored for that id, untracks it and removes its timer, and changes nothing for an unknown id; that BaseChannel::start_send drops a response whose id is no longer tracked (nothing is transmitted after a cancel); that reading never produces effects other than aborts; that every poll of a channel polls its inbound side (control traffic is processed). The cascade step (an aborted handler drops its nested calls, whose guards cancel downstream) rests on A-abortable + the client guard contract.',
      level_note='Known finding F8 (throttler at its limit with the sink not ready does not poll the inner channel) is reported as KNOWN-FINDING.',
-     not_covered='InFlightRequest::execute (async + Abortable: outside both verifiers); multi-hop cascade is an argument over contracts, not a checked lemma')
+     not_covered='multi-hop cascade is an argument over contracts (abort => handler future dropped => nested call guards fire), not a checked lemma; partial execution of an aborted handler is abstracted by the two-outcome Abortable model (R15)')
 prop('C06', title='Server enforces request deadlines, never early',
      verus=['server'], kani=['k3_time_until_is_saturating_difference', 'k3_max_timer_delay_value'], technique=TECH_V + '; ' + TECH_K,
      assumptions=COMMON_V + ['A-abortable', 'A-delayqueue', 'A-clock', 'A-sink'],
@@ -147,7 +147,7 @@ prop('C08', title='One handler and at most one response per request',
      verus=['server'], technique=TECH_V,
      assumptions=COMMON_V + ['A-abortable', 'A-delayqueue', 'A-sink', 'A-mpsc'],
      level_text='Proof that BaseChannel::poll_next yields a TrackedRequest only for an id that was not tracked at that moment and tracks it (a duplicate id yields nothing and changes nothing); that start_send writes a response iff its id is tracked and untracks it (so between two transmissions of an id there is a fresh read of it on this channel, and every transmitted response answers a request read here); that Requests forwards at most one response per pass through that start_send and wraps each TrackedRequest into exactly one InFlightRequest.',
-     level_note='Generic over the Channel contract: holds for BaseChannel and for MaxRequests<C> stacked on any quiet channel.',
+     level_note='Generic over the Channel contract: holds for BaseChannel and for MaxRequests<C> stacked on any quiet channel. InFlightRequest::execute is under contract: one handler invocation, one response bearing the request id, guard disarmed on every completion path.',
      not_covered='id reuse after cancellation while the old handler\'s response is still queued')
 prop('C12', title='Per-channel request limit throttles exactly the excess',
      verus=['server'], technique=TECH_V + '; the inner channel is an arbitrary implementation of the proved Channel contract',
